@@ -399,6 +399,7 @@ def check_step(ctx, par: Snap, child, marked, records, desc, step=0, light=False
     pfd = facet_dict(par.t)
     problems = []
     bsum = {}
+    bcnt = {}
     for key, inc in fc.items():
         if len(inc) > 2:
             problems.append(("facet-with-more-than-two-cells", key, len(inc)))
@@ -419,6 +420,7 @@ def check_step(ctx, par: Snap, child, marked, records, desc, step=0, light=False
             else:
                 r = orc.facet_ratio_num(c, i, int(pfm[c, i]))
                 bsum[pk] = bsum.get(pk, 0) + r
+                bcnt[pk] = bcnt.get(pk, 0) + 1
         if len(problems) > 6:
             break
     if not problems:
@@ -431,7 +433,14 @@ def check_step(ctx, par: Snap, child, marked, records, desc, step=0, light=False
             if orc.exact:
                 okb = got == full
             else:
-                okb = abs(float(got) - float(full)) <= 1e-9 * float(full)
+                # every barycentric numerator carries the rounding of the stored coordinates (vol_tol: the new points
+                # of a mesh far from the origin are the nearest doubles of the midpoints); a facet piece that is really
+                # missing is off by a fraction 2^-k of the facet, never by rounding
+                rel = max(1e-9, 16.0 * d * (bcnt.get(pk, 0) + 1) * float(orc.vol_tol(K)) / float(full ** (1.0 / d) if d > 1 else full))
+                if rel > 1e-3:
+                    ctx.drop("boundary-facet-coverage-below-coordinate-resolution")
+                    continue
+                okb = abs(float(got) - float(full)) <= rel * float(full)
             if not okb:
                 problems.append(("parent-boundary-facet-not-covered-exactly", pk, str(got), str(full)))
                 if len(problems) > 4:
